@@ -185,6 +185,13 @@ MODELLED = {
     ("proto/serialframe.py", "SerialFrame.frame_create"): {
         0: "create_fid_max", 1: "create_len_base", 2: "create_hdr_fmt",
         3: "create_foot_fmt"},
+    ("proto/parserecv.py", "ParseRecv.recv_handle"): {},
+    ("proto/parserecv.py", "ParseRecv._recv_cb_handle"): {},
+    ("proto/parserecv.py", "ParseRecv._recv_cb_cmninfo"): {0: "cb_cmninfo_len"},
+    ("proto/parserecv.py", "ParseRecv._recv_cb_chinfo"): {0: "cb_chinfo_len"},
+    ("proto/parserecv.py", "ParseRecv._recv_cb_enable"): {0: "cb_enable_nlen"},
+    ("proto/parserecv.py", "ParseRecv._recv_cb_div"): {0: "cb_div_nlen"},
+    ("proto/parserecv.py", "ParseRecv._recv_cb_start"): {0: "cb_start_len"},
     ("intf/iintf.py", "CommInterfaceCommon.data_align"): {0: "align_pad_byte"},
     ("intf/iintf.py", "CommInterfaceCommon.write"): {},
     ("intf/iintf.py", "CommInterfaceCommon.read"): {},
@@ -355,7 +362,8 @@ def emit_frame(mods, c, status):
     out.append("Definition crc_rev : bool := %s." % ("true" if crc["rev"] else "false"))
     out.append("Definition crc_xorout : N := %d%%N." % crc["xorout"])
     for nm in ("hdr_decode_fmt", "crc_residue", "decode_foot_off", "create_fid_max",
-               "create_len_base", "create_hdr_fmt", "create_foot_fmt"):
+               "create_len_base", "create_hdr_fmt", "create_foot_fmt", "cb_cmninfo_len",
+               "cb_chinfo_len", "cb_enable_nlen", "cb_div_nlen", "cb_start_len"):
         out.append(coq_const(nm, c[nm]))
     return {"Gen_frame.v": "\n".join(out) + "\n"}
 
